@@ -45,6 +45,20 @@ theorem failed_read_keeps_params (E : Env) (fuel : Nat) (s : St) (n : Name) (h :
   simp only [specStep]
   cases evalPure E s.pv 0 (.q n) <;> rfl
 
+/-- … and so does any number of reads, failing or not, in any order: reading is never a way to change
+    the object's parameters (lift of `failed_read_keeps_params` over every read-only history, from any
+    state reached by any earlier history) -/
+theorem reads_keep_params (E : Env) (fuel : Nat) : ∀ (names : List Name) (s : St), CInv E s →
+    (run E fuel s (names.map Op.get)).2.pv = s.pv := by
+  intro names
+  induction names with
+  | nil => intro s _; rfl
+  | cons n ns ih =>
+    intro s h
+    simp only [List.map_cons, run]
+    rw [ih _ (step_refines E fuel s (.get n) h).1]
+    exact failed_read_keeps_params E fuel s n h
+
 /-- A rejected `update` keeps exactly the prefix of values accepted before the rejection
     (parameter-level statement; the specification's `pvSetMany`). -/
 theorem rejected_update_keeps_prefix (E : Env) (pv : Name → Val) (n : Name) (v : Val) (e : Exn)
